@@ -81,6 +81,8 @@ def install(it):
             n = smt.as_concrete_int(z3.Length(v.term))
             return n if n is not None else z3.Length(v.term)
         if isinstance(v, DictVal):
+            if v.base is not None and not v.entries and v.size is not None:
+                return v.size      # abstractly given dictionary
             return len(it.dict_keys(v))
         if isinstance(v, SetVal) and v.member is None:
             return len(v.items)
@@ -357,6 +359,13 @@ def install(it):
 
     def minmax(is_min):
         def f(it, args, kw):
+            if len(args) == 1 and isinstance(args[0], IterSource) and args[0].kind == 'dictkeys':
+                d = args[0].data
+                if is_min or d.size is None or d.keys_max is None:
+                    raise Unsupported('min()/max() over the keys of an abstract dictionary')
+                if it.p.branch(int_term(d.size) <= 0):
+                    it.raise_exc('ValueError', 'max() arg is an empty sequence')
+                return d.keys_max
             if len(args) == 1:
                 items = []
                 it.iterate(args[0], items.append)
@@ -671,8 +680,12 @@ def install_methods(it):
             src = args[1]
             if isinstance(src, DictVal):
                 if src.base is not None:
-                    raise Unsupported('dict.update from symbolic dict')
-                d.entries.extend(src.entries)
+                    # an abstractly given dictionary: it becomes one layer of the update chain
+                    d.entries.append(('layer', src, None))
+                    d.cindex = None
+                    d.size = d.keys_max = d.items_seq = None
+                else:
+                    d.entries.extend(src.entries)
             else:
                 def add(pair):
                     k, v = it.unpack(pair, 2)
@@ -683,7 +696,10 @@ def install_methods(it):
 
     @M('dict', 'keys')
     def dict_keys(it, args, kw):
-        return ListVal(it.dict_keys(args[0]))
+        d = args[0]
+        if d.base is not None and not d.entries and d.keys_max is not None:
+            return IterSource('dictkeys', d)      # key view of an abstractly given dictionary
+        return ListVal(it.dict_keys(d))
 
     @M('dict', 'values')
     def dict_values(it, args, kw):
